@@ -224,8 +224,15 @@ pub fn run_case(ctx: &Ctx, case: &Case, counting: bool) -> PResult {
 				}
 			}
 			Op::Reopen => {
-				a.reopen().map_err(|e| Fail::new("reopen-failed", e))?;
-				b.reopen().map_err(|e| Fail::new("reopen-failed", e))?;
+				let nrd = !w.nodes[head].model.nrd.is_empty();
+				for x in [&mut a, &mut b] {
+					if let Err(f) = x.reopen_classified(nrd) {
+						if ctx.known_hit(&f.sig) {
+							return Ok(());
+						}
+						return Err(f);
+					}
+				}
 			}
 			Op::Bad(bad, pick) => {
 				let pick = *pick as usize;
@@ -410,8 +417,15 @@ pub fn run_case(ctx: &Ctx, case: &Case, counting: bool) -> PResult {
 	}
 	a.c().validate(false).map_err(|e| Fail::new("validate-failed", format!("A: {:?}", e)))?;
 	b.c().validate(false).map_err(|e| Fail::new("validate-failed", format!("B: {:?}", e)))?;
-	a.reopen().map_err(|e| Fail::new("reopen-failed", e))?;
-	b.reopen().map_err(|e| Fail::new("reopen-failed", e))?;
+	let nrd = !w.nodes[head].model.nrd.is_empty();
+	for x in [&mut a, &mut b] {
+		if let Err(f) = x.reopen_classified(nrd) {
+			if ctx.known_hit(&f.sig) {
+				return Ok(());
+			}
+			return Err(f);
+		}
+	}
 	compare(&a, &b, &w, "after final reopen")?;
 	scan(&a, &w, "A vs model after final reopen")?;
 	if counting {
